@@ -114,7 +114,15 @@ class WrappedDispatcher:
         read_callback: Callable,
         check_callback: Callable,
     ) -> None:
-        self.dispatcher.read(sock, read_callback)
+        def read_all() -> bool:
+            keep = read_callback()
+            # an SSL socket may hold further decrypted frames which the
+            # dispatcher, watching the descriptor only, would never report
+            while keep and getattr(sock, "pending", None) and sock.pending():
+                keep = read_callback()
+            return keep
+
+        self.dispatcher.read(sock, read_all)
         self.ping_timeout and self.timeout(self.ping_timeout, check_callback)
 
     def send(self, sock: socket.socket, data: Union[str, bytes]) -> None:
